@@ -4579,7 +4579,8 @@ func (stmt *SelectStmt) isCountStarShape() bool {
 // aggregate selector, or any unrecognised selector kind disqualifies the
 // fast path.
 func (stmt *SelectStmt) canCountWithKeyOnly(idx *Index, where ValueExp, tableAlias string, params map[string]interface{}) bool {
-	if where == nil || idx == nil {
+	// selectors() does not see the outer columns a correlated EXISTS / IN subquery reads
+	if where == nil || idx == nil || expContainsSubquery(where) {
 		return false
 	}
 
